@@ -483,9 +483,17 @@ def r5_run_loop(ctx):
     rep.floor('C04.R5', 'RuntimeState.update call sites in RUN', len(rr.update_sites), 1)
     # the skip test: a test reading both SKIP and REQUIRES
     skip_tests = []
+    named_reads = {}
     for n in rr.g.nodes:
         if n.kind == 'test' and rr.in_loop(n) and not n.dup:
             ks = {k for (_, k) in keys_read(n.ast)}
+            # a condition held in a local first (`skip = runstate['SKIP'] or ...; if skip or ...:`)
+            for nm in ast.walk(n.ast):
+                if isinstance(nm, ast.Name) and isinstance(nm.ctx, ast.Load):
+                    ds = rr.rd.at(n, nm.id)
+                    if len(ds) == 1 and isinstance(ds[0].value, (ast.BoolOp, ast.Compare, ast.UnaryOp, ast.Subscript)):
+                        ks |= {k for (_, k) in keys_read(ds[0].value)}
+                        named_reads.setdefault(id(n), []).extend(keys_read(ds[0].value))
             if 'SKIP' in ks or 'REQUIRES' in ks:
                 skip_tests.append((n, ks))
     if not skip_tests:
@@ -512,7 +520,7 @@ def r5_run_loop(ctx):
         # receiver is the object whose keys the skip test reads
         recv_txt = ast.unparse(c.func.value) if isinstance(c.func, ast.Attribute) else '?'
         for (t, ks) in skip_tests:
-            bases = {b for (b, k) in keys_read(t.ast) if k in ('SKIP', 'REQUIRES')}
+            bases = {b for (b, k) in list(keys_read(t.ast)) + named_reads.get(id(t), []) if k in ('SKIP', 'REQUIRES')}
             rep.ob('C04.R5', ctx.loc(f, t.ast), 'skip test reads the updated state object', bases == {recv_txt},
                    'both use `%s`' % recv_txt if bases == {recv_txt} else 'update on `%s` but skip test reads %s' % (recv_txt, sorted(bases)), nontrivial=False, anchor=RUN)
     # (b) false edge dominates the sites; true edge is effect free
